@@ -95,7 +95,9 @@ Record eobs := {
   e_ids : list Z; e_types : list nat; e_data : list row; e_id2index : list (Z * nat);
   e_q : list Z;
   e_filter : list (nat * table row);       (* blocks of filter_with_ids(q) *)
-  e_fids : list Z; e_ftypes : list nat; e_fdata : list row   (* its summary *)
+  e_fids : list Z; e_ftypes : list nat; e_fdata : list row;  (* its summary *)
+  e_g : table row;                          (* ids, data handed to generate_elemental_attribute *)
+  e_gen : list (nat * table row)            (* blocks it returned *)
 }.
 
 Definition pair_eqb (a b : Z * nat) := Z.eqb (fst a) (fst b) && Nat.eqb (snd a) (snd b).
@@ -109,6 +111,7 @@ Definition check_summary (bs : @blocks row) (o : eobs) : list nat :=
       (if nats_eqb (s_types s) (e_types o) then [] else [2%nat]) ++
       (if rows_eqb (s_data s) (e_data o) then [] else [3%nat]) ++
       (if list_eqb' pair_eqb (s_id2index s) (e_id2index o) then [] else [4%nat]) ++
+      (if list_eqb' block_eqb (egenerate bs (e_g o)) (e_gen o) then [] else [9%nat]) ++
       (let fb := efilter bs (e_q o) in
        (if list_eqb' block_eqb fb (e_filter o) then [] else [5%nat]) ++
        match update_self fb with
